@@ -73,11 +73,24 @@ end end`},
   return r
 end end`},
 	{"close", `local function n_close(f) return function()
+  local finished = false
   local c <close> = setmetatable({}, {__close = function(_, e)
-    if e ~= nil then caught("close") end
+    if e ~= nil or not finished then caught("close") end
     emit("closed")
   end})
   local r = f()
+  finished = true
+  return r
+end end`},
+	{"closealloc", `local function n_closealloc(f) return function()
+  local finished = false
+  local c <close> = setmetatable({}, {__close = function(_, e)
+    if e ~= nil or not finished then caught("close") end
+    local s = ("x"):rep(3000)
+    emit("closed", #s)
+  end})
+  local r = f()
+  finished = true
   return r
 end end`},
 	{"ctxbig", `local function n_ctxbig(f) return function()
@@ -125,7 +138,7 @@ end end`},
 end end`},
 }
 
-const nQuickNests = 11
+const nQuickNests = 12
 
 // A workload is the body of function work(); %K is replaced by the size.
 type workload struct {
